@@ -40,6 +40,7 @@ structure Node where
   isDir : Bool
   content : List Nat
   children : List (String × Nat)
+  dead : Bool := false           -- a directory that was removed (rmdir, or replaced by a rename) while still open
 deriving Repr, Inhabited
 
 /-- open file description -/
@@ -128,7 +129,9 @@ def FS.atPath (fs : FS) (fd : Int) (comps : List String) : Except E (Nat × List
   | .error e => .error e
   | .ok (_, d) =>
     if !d.isDir then .error .notdir
-    else if fs.byName then .ok (0, d.name ++ comps) else .ok (d.ino, comps)
+    else if fs.byName then .ok (0, d.name ++ comps)
+    else if ((fs.node d.ino).map (·.dead)).getD false && !comps.isEmpty then .error .noent   -- nothing lives in a removed directory
+    else .ok (d.ino, comps)
 
 structure OpenArgs where
   creat : Bool
@@ -356,7 +359,7 @@ def FS.rmdir (fs : FS) (dirfd : Int) (comps0 : List String) : FS × E :=
           | some n =>
             if !n.isDir then (fs, .notdir)
             else if !n.children.isEmpty then (fs, .notempty)
-            else (fs.setNode p (delChild pn name), .ok)
+            else ((fs.setNode ino { n with dead := true }).setNode p (delChild pn name), .ok)
 
 /-- is `anc` the directory `ino` or one of its ancestors-by-containment? (fuel = number of nodes) -/
 def FS.contains (fs : FS) : Nat → Nat → Nat → Bool
@@ -406,7 +409,7 @@ def FS.rename (fs : FS) (fd1 : Int) (c10 : List String) (fd2 : Int) (c20 : List 
                       if n.isDir then
                         if !tn.isDir then (fs, .notdir)
                         else if !tn.children.isEmpty then (fs, .notempty)
-                        else (doMove fs, .ok)
+                        else (doMove (fs.setNode tgt { tn with dead := true }), .ok)
                       else
                         if tn.isDir then (fs, .isdir) else (doMove fs, .ok)
             | _, _ => (fs, .noent)
@@ -420,7 +423,9 @@ def FS.ls (fs : FS) (fd : Int) : E × List (String × Bool) :=
     if !d.isDir then (.badf, [])
     else match fs.node d.ino with
       | none => (.noent, [])
-      | some n => (.ok, n.children.map (fun c => (c.1, ((fs.node c.2).map (·.isDir)).getD false)))
+      | some n =>
+        if n.dead then (.noent, []) else
+        (.ok, n.children.map (fun c => (c.1, ((fs.node c.2).map (·.isDir)).getD false)))
 
 /-- the tree below `ino` as (path, isDir, content) triples (fuel = number of nodes) -/
 def FS.dump (fs : FS) : Nat → Nat → String → List (String × Bool × List Nat)
